@@ -414,6 +414,37 @@ impl core::ops::Not for Choice {
     fn not(self) -> (r: Choice) ensures r.b == !self.b { Choice { b: !self.b } }
 }
 
+// ---------------------------------------------------------------------------------- argon2 0.5 (only what src/ksf.rs calls)
+pub mod argon2 {
+    use super::*;
+    verus! {
+    pub const RECOMMENDED_SALT_LEN: usize = 16;
+    pub struct Error;
+    #[verifier::external_body]
+    pub struct Argon2<'key> { _p: PhantomData<&'key ()> }
+    impl<'key> Argon2<'key> {
+        /// Argon2(params of self; password, salt) with `len` output bytes; None = the library refuses (parameters / lengths / memory)
+        pub uninterp spec fn kdf(&self, pwd: Seq<u8>, salt: Seq<u8>, len: nat) -> Option<Seq<u8>>;
+        /// the real method takes `&[u8], &[u8], &mut [u8]`; the call site passes `&GenericArray`, `&[0; 16]`, `&mut GenericArray` (deref coercions)
+        #[verifier::external_body]
+        pub fn hash_password_into<L: ArrayLength<u8>>(&self, pwd: &GenericArray<u8, L>, salt: &[u8; 16], out: &mut GenericArray<u8, L>) -> (r: Result<(), Error>)
+            ensures
+                r is Ok <==> self.kdf(pwd@, salt@, L::n()) is Some,
+                r is Ok ==> final(out)@ == self.kdf(pwd@, salt@, L::n())->0,
+        { unimplemented!() }
+    }
+    impl<'key> Default for Argon2<'key> { #[verifier::external_body] fn default() -> Self { unimplemented!() } }
+    /// (proved) a 16-byte all-zero salt is `zeros(16)` whatever expression produced it
+    pub broadcast proof fn lemma_kdf_zero_salt<'key>(a: Argon2<'key>, p: Seq<u8>, s: Seq<u8>, l: nat)
+        requires s.len() == 16, forall|i: int| 0 <= i < 16 ==> s[i] == 0u8,
+        ensures #[trigger] a.kdf(p, s, l) == a.kdf(p, Seq::new(16, |i: int| 0u8), l)
+    { assert(s =~= Seq::new(16, |i: int| 0u8)); }
+    pub proof fn lemma_kdf_len<'key>(a: Argon2<'key>, pwd: Seq<u8>, salt: Seq<u8>, len: nat)
+        ensures a.kdf(pwd, salt, len) is Some ==> a.kdf(pwd, salt, len)->0.len() == len
+    { admit(); }
+    }
+}
+
 // ---------------------------------------------------------------------------------- voprf 0.5 (mode OPRF)
 pub mod voprf {
     use super::*;
